@@ -62,8 +62,8 @@ theorem exInner_wt : wt exEnv (.ref 0) exInner := by
 theorem exMsg_wt : wt exEnv (.ref 1) exMsg := by
   refine ⟨1, _, rfl, rfl, ?_, by decide⟩
   simp only [wtMsg, exEnv, List.find?]
-  refine ⟨by decide, by decide, ⟨_, rfl, exInner_wt⟩, by decide, by decide, ⟨_, rfl, ?_⟩, by decide, by decide,
-    ⟨_, rfl, ?_⟩, by decide, by decide, ⟨_, rfl, ?_⟩, by decide, by decide, ⟨_, rfl, ?_⟩, trivial⟩
+  refine ⟨by decide, by decide, ⟨_, rfl, rfl, exInner_wt⟩, by decide, by decide, ⟨_, rfl, rfl, ?_⟩, by decide, by decide,
+    ⟨_, rfl, rfl, ?_⟩, by decide, by decide, ⟨_, rfl, rfl, ?_⟩, by decide, by decide, ⟨_, rfl, rfl, ?_⟩, trivial⟩
   · simp [wt, wtList, Progress, loopSlack]
   · exact ⟨.str, .bool, rfl, rfl, by decide, by simp [wtKVs, wt], by simp [keysDistinct, keyEq]⟩
   · simp [wt]
@@ -76,7 +76,7 @@ theorem exVal_wt : wt exEnv (.ref 3) exVal := by
   · exact ⟨2, _, 1, rfl, rfl, by decide, rfl, exMsg_wt, by decide⟩
   · refine ⟨1, _, rfl, rfl, ?_, by decide⟩
     simp only [wtMsg, exEnv, List.find?]
-    refine ⟨by decide, by decide, ⟨_, rfl, ?_⟩, trivial⟩
+    refine ⟨by decide, by decide, ⟨_, rfl, rfl, ?_⟩, trivial⟩
     simp [wt, wtList, Progress, loopSlack]
   · simp [wt]
 
